@@ -281,7 +281,7 @@ fn run(ctx: &mut Ctx) {
     let mut rng = ctx.rng.clone();
     // systematic: comment lines 0..3 x metadata items 0..3 x expression texts x line endings, the
     // positions and contents drawn at random per cell (several draws per cell)
-    let draws = ctx.tier.of(6, 60);
+    let draws = ctx.tier.of(12, 100);
     for nc in 0..=3 {
         for nm in 0..=3 {
             for e in EXPRS {
@@ -301,7 +301,7 @@ fn run(ctx: &mut Ctx) {
         }
     }
     // random beyond: more comment lines and items
-    let n = ctx.tier.of(4_000, 80_000);
+    let n = ctx.tier.of(10_000, 100_000);
     for _ in 0..n {
         let nc = rng.below(7);
         let nm = rng.below(6);
